@@ -249,7 +249,7 @@ def drop_point(doc: Node, pos: int, slice: Slice) -> int | None:
         content = content.first_child.content
     pass_ = 1
     while pass_ <= (2 if slice.open_start == 0 and slice.size else 1):
-        for d in range(pos_.depth, 0, -1):
+        for d in range(pos_.depth, -1, -1):
             if d == pos_.depth:
                 bias = 0
             elif pos_.pos <= (pos_.start(d + 1) + pos_.end(d + 1)) / 2:
@@ -266,7 +266,7 @@ def drop_point(doc: Node, pos: int, slice: Slice) -> int | None:
                 wrapping = parent.content_match_at(insert_pos).find_wrapping(
                     content.first_child.type,
                 )
-                fits = wrapping is not None and parent.can_replace_with(
+                fits = bool(wrapping) and parent.can_replace_with(
                     insert_pos,
                     insert_pos,
                     wrapping[0],
